@@ -41,6 +41,7 @@ async fn c16_prog(ctx: Ctx, depth: usize, read_every_step: bool) {
     let (cur, total) = (0i32, 0i32);
     let (mut prev_cur, mut prev_total) = (0i32, 0i32);
     let mut prev_list: Vec<InstanceHandle> = vec![];
+    let mut asym_before = false;
     let (mut last_a, mut last_b): (Option<InstanceHandle>, Option<InstanceHandle>) = (None, None);
     let mut a_prev: Option<(i32, i32)> = None;
     let mut hist: Vec<&str> = vec![];
@@ -170,7 +171,12 @@ async fn c16_prog(ctx: Ctx, depth: usize, read_every_step: bool) {
             if rs.current_count != rl.len() as i32 {
                 ctx.violation(format!("reader/current_count-vs-list/{opk}"), format!("history {hist:?}: reader a current_count={} list={}", rs.current_count, rl.len()));
             }
-            if read_every_step && rl.contains(&w.get_instance_handle()) != ra {
+            // (re-synchronised like the other clauses: an asymmetry that already existed before this operation was
+            // reported when it arose - under the name of the operation that caused it - and is not reported again)
+            let asym = rl.contains(&w.get_instance_handle()) != ra;
+            let asym_new = asym && !asym_before;
+            asym_before = asym;
+            if read_every_step && asym_new {
                 ctx.violation(format!("reader/asymmetric-match/{opk}"), format!("history {hist:?}: writer side matched={ra}, reader side matched list {}", rl.len()));
             }
             let (pc, pt) = a_prev.unwrap_or((0, 0));
@@ -183,6 +189,7 @@ async fn c16_prog(ctx: Ctx, depth: usize, read_every_step: bool) {
             a_prev = Some((rs.current_count, rs.total_count));
         } else {
             a_prev = None;
+            asym_before = false;
         }
         // re-synchronise the specification with what the implementation believes, so that a listed finding does
         // not cascade into the following steps
